@@ -113,6 +113,28 @@ func (c *RefCodec) Encode(f RefFrame, padding []byte, trailer [8]byte) ([]byte, 
 	return msg, nil
 }
 
+// EncodePlainShort builds a plain-method message WITHOUT a dedicated nonce trailer: the layout only
+// says that the last 8 bytes of the message key the header cipher, whatever they are, and that the
+// extra-length byte counts the bytes after the payload. extra may be 0..255 as long as payload +
+// extra is at least 8 bytes (older Cloak encoders emit extra = max(0, 8 - len(payload))).
+func (c *RefCodec) EncodePlainShort(f RefFrame, extra []byte) ([]byte, error) {
+	if c.aead != nil {
+		return nil, errors.New("refcodec: EncodePlainShort is for the plain method")
+	}
+	if len(f.Payload) == 0 || len(f.Payload)+len(extra) < 8 || len(extra) > 255 {
+		return nil, errors.New("refcodec: payload + extra must be at least 8 bytes")
+	}
+	hdr := make([]byte, RefHdrLen)
+	binary.BigEndian.PutUint32(hdr[0:4], f.StreamID)
+	binary.BigEndian.PutUint64(hdr[4:12], f.Seq)
+	hdr[12] = f.Closing
+	hdr[13] = byte(len(extra))
+	msg := append(append(hdr, f.Payload...), extra...)
+	nonce := append([]byte{}, msg[len(msg)-8:]...)
+	salsa20.XORKeyStream(msg[:RefHdrLen], msg[:RefHdrLen], nonce, &c.Key)
+	return msg, nil
+}
+
 // Decode parses a message without modifying it.
 func (c *RefCodec) Decode(msg []byte) (RefFrame, error) {
 	var f RefFrame
